@@ -713,6 +713,19 @@ def shown_options(r, name):
     return v if isinstance(v, dict) else None
 
 
+def _norm_repr_out(x, name):
+    """an outcome with its `repr` text replaced by the (canonically encoded) dictionary that text prints, when it reads back"""
+    if isinstance(x, dict) and isinstance(x.get("repr"), str):
+        v = shown_options(x["repr"], name)
+        if v is not None:
+            return dict(x, repr=["shown", canon_wire(enc(v))])
+    elif isinstance(x, str):
+        v = shown_options(x, name)
+        if v is not None:
+            return ["shown", canon_wire(enc(v))]
+    return x
+
+
 def model_line(case):
     return json.dumps({"name": case["name"], "members": [[n, model_spec(s)] for n, s in flatten(case)],
                        "o1": case["o1"], "o2": case["o2"]})
@@ -1749,11 +1762,13 @@ def hist_check(fc, res, model_of=None, notes=None):
         call = {"keys": "%s.keys(o)", "explain": "%s.explain(o)", "validate": "%s.validate(o)", "inst": "%s(o)",
                 "repr": "repr of the %s instance", "eq": "== of two %s instances"}[k] % cname(c)
         got, ref = st["got"], st["ref"]
+        # (a repr is compared as the dictionary it prints, read back: a set prints its members in iteration order, which
+        # depends on how the set was built, not on its contents)
         if k == "inst" and got != ref and without_ds(c, st["si"], got) == without_ds(c, st["si"], ref):
             exempt_steps.append(i)
             got, ref = without_ds(c, st["si"], got), without_ds(c, st["si"], ref)
         # 1. history independence
-        if got != ref:
+        if _norm_repr_out(got, cname(c)) != _norm_repr_out(ref, cname(c)):
             problems.append((i, "history", f"step {i}: {call} gives {json.dumps(got)} at this point of the history, but "
                                            f"{json.dumps(ref)} when it is the first thing done with a freshly built family and a "
                                            f"fresh dictionary of equal contents"))
